@@ -95,9 +95,11 @@ fn obs_nm(h: &str) -> String {
         Ok(s) => {
             let o = name_obs(&s);
             if o.is_empty() {
-                "allerr".to_string()
+                "err".to_string()
+            } else if o.contains("=panic") {
+                format!("panic {o}")
             } else {
-                o
+                format!("ok {o}")
             }
         }
     }
@@ -121,7 +123,14 @@ fn obs_nmblk(prefix: &str, comps: &str) -> String {
             }
         }
     }
-    format!("{n}{out}")
+    let class = if out.is_empty() {
+        "err"
+    } else if out.contains("=panic") {
+        "panic"
+    } else {
+        "ok"
+    };
+    format!("{class} {n}{out}")
 }
 
 fn obs_radix(r: u32, h: &str) -> String {
@@ -220,7 +229,9 @@ fn obs_run(run: u32) -> String {
             }
         }
     }
-    format!("w={} p={}", table_obs(TPC_ANODE_WIRES as u64, &wt), table_obs(TPC_PADS as u64, &pt))
+    let (w, p) = (table_obs(TPC_ANODE_WIRES as u64, &wt), table_obs(TPC_PADS as u64, &pt));
+    let class = if w.starts_with("0/") && p.starts_with("0/") { "err" } else { "ok" };
+    format!("{class} w={w} p={p}")
 }
 
 fn obs_wpos(run: u32, bh: &str, ch: u8) -> String {
@@ -270,8 +281,8 @@ fn obs_wcol(w: usize) -> String {
         Some(phi) => {
             let s = (phi / ANODE_WIRE_PITCH_PHI - 0.5).round() as i64;
             match column_of_phi(phi) {
-                Some(c) => format!("{s} {c}"),
-                None => format!("{s} none"),
+                Some(c) => format!("ok {s} {c}"),
+                None => format!("ok {s} none"),
             }
         }
     }
@@ -285,9 +296,9 @@ fn obs_colw(c: usize) -> String {
     }
     v.sort_by_key(|s| s.parse::<usize>().unwrap());
     if v.is_empty() {
-        "-".to_string()
+        "ok -".to_string()
     } else {
-        v.join(" ")
+        format!("ok {}", v.join(" "))
     }
 }
 
@@ -333,7 +344,7 @@ fn put_block(s: &mut Sink, prefix: &[u8], comps: &[Vec<u8>], label: &str) {
     let c: Vec<String> = comps.iter().map(|x| hex(x)).collect();
     let case = format!("nmblk {} {}", hex(prefix), c.join(","));
     let o = observe_line(&case).unwrap();
-    let nt = o.contains(' ');
+    let nt = !o.starts_with("err");
     s.put(&case, &o, label, nt);
 }
 
